@@ -1,6 +1,7 @@
 package main
 
 import (
+	"strings"
 	"fmt"
 	"go/ast"
 	"go/token"
@@ -33,7 +34,7 @@ func (e *Engine) havocLoop(fr *Frame, st *State, head *ssa.BasicBlock, phis []*s
 	if fr.con != nil {
 		// auxiliary ghosts assigned by `after` statements of this contract
 		for _, as := range fr.con.Afters {
-			if hasTag(as.Tags, e.curTags) {
+			if hasTag(as.Tags, e.curTags) && e.regionCalls(fr.fn, blocks, as.Callee) {
 				targets = append(targets, writeTarget{ghost: as.Ghost})
 			}
 		}
@@ -535,4 +536,60 @@ func shortFile(f string) string {
 		}
 	}
 	return f
+}
+
+// regionCalls: does the loop region (or anything it may inline) contain a call whose callee
+// key ends with suffix? Conservative: unknown callees count as a match.
+func (e *Engine) regionCalls(fn *ssa.Function, blocks map[int]bool, suffix string) bool {
+	for _, b := range fn.Blocks {
+		if blocks != nil && !blocks[b.Index] {
+			continue
+		}
+		for _, ins := range b.Instrs {
+			var c *ssa.CallCommon
+			switch x := ins.(type) {
+			case *ssa.Call:
+				c = x.Common()
+			case *ssa.Defer:
+				c = x.Common()
+			case *ssa.Go:
+				c = x.Common()
+			}
+			if c == nil {
+				continue
+			}
+			if c.IsInvoke() {
+				if strings.HasSuffix(ifaceKey(c.Value.Type(), c.Method.Name()), suffix) {
+					return true
+				}
+				continue
+			}
+			callee := c.StaticCallee()
+			if callee == nil {
+				return true // call through a function value: may reach anything
+			}
+			if strings.HasSuffix(funcKey(callee), suffix) {
+				return true
+			}
+			// an in-repo callee without a contract is inlined: look inside (one level is enough
+			// for the wrappers in this code base; deeper nesting is treated as a match)
+			if e.contracts[funcKey(callee)] == nil && len(callee.Blocks) > 0 && inRepo(callee) {
+				for _, cb := range callee.Blocks {
+					for _, ci := range cb.Instrs {
+						if cc, ok := ci.(ssa.CallInstruction); ok {
+							k := cc.Common()
+							if k.IsInvoke() {
+								if strings.HasSuffix(ifaceKey(k.Value.Type(), k.Method.Name()), suffix) {
+									return true
+								}
+							} else if sc := k.StaticCallee(); sc == nil || strings.HasSuffix(funcKey(sc), suffix) || (e.contracts[funcKey(sc)] == nil && inRepo(sc) && len(sc.Blocks) > 0) {
+								return true
+							}
+						}
+					}
+				}
+			}
+		}
+	}
+	return false
 }
